@@ -69,6 +69,7 @@ def run(ctx):
         sym = rng.choice(tgen.SYM_NAMES)
         cplx = rng.random() < 0.3
         cfg = tgen.make_cfg(sym, rng.choice(tgen.POLICIES), "hard", dtype="complex128" if cplx else "float64")
+        cfg.backend.random_seed(seed=rng.randrange(2 ** 31))   # yastn.rand draws from the backend's generator: tie it to VERIF_SEED
         which = rng.choice(["svd", "svd", "qr", "qr", "eigh", "eig"])
         ctx.count(f"which:{which}"); ctx.count(f"sym:{sym}")
         try:
